@@ -12,6 +12,15 @@ HOOK_COMMITS = ["f98da77"]
 
 PENDING = {}
 
+PENDING_TEXT = {
+    "C04": ["ShapeVerif.accept_no_diagnostics", "ShapeVerif.unchecked_false", "ShapeVerif.checked_iff",
+            "ShapeVerif.sources_accept"],
+    "C05": ["ShapeVerif.classifyArray_never_fails", "ShapeVerif.classifyArrayV_total",
+            "ShapeVerif.rejectDiagnostics_no_panic", "ShapeVerif.isSuperset_never_errs", "ShapeVerif.work_bounds"],
+    "C07": ["ShapeVerif.infer_payload_independent", "ShapeVerif.infer_factors", "ShapeVerif.infer_repetition",
+            "ShapeVerif.infer_scalar_forms"],
+}
+
 PROPS = {
     "C09": {
         "module": "ShapeVerif.Props.C09",
@@ -92,6 +101,36 @@ PROPS = {
         "assumptions": [],
         "level_text": "samples_accepted is a Lean theorem over all histories of document trees: every single-document shape is reported as a subset of the merged shape. It rests on two lemmas proved for all shapes by induction over the 64 arms of merger (keeps, newSample), transitivity of is_subset into OneOf-free shapes, and invariants (wf, tupleFlat, plain) proved preserved. The proof only closes on the code repaired by the D6 fix; the pre-fix witnesses are kept as corpus entries. is_subset, merger and from_sources are compared with the real code on every run and the three API calls are re-evaluated on the real code.",
         "level_note": "Trusted: Lean kernel; models of subset.rs, merger.rs, shape/mod.rs tied by differential testing; text layer via the reference parser until C04.",
+    },
+    "C04": {
+        "module": "ShapeVerif.Props.C04",
+        "theorems": PENDING_TEXT["C04"],
+        "statements": {},
+        "partial": ["see DESIGN §5 C04: what is proved about the text layer and what is only compared"],
+        "rule": "from_str (and is_superset_checked / is_superset / from_sources on a subset) on: every string of length <= 3 (thorough 4) over a 29-character JSON alphabet, every token string of length <= 5 (thorough 6) over 13 lexemes, valid documents in four formattings with every prefix, deletion, substitution and insertion, escapes incl. surrogate pairs, nesting 200..300 around the limit. Oracle: accepted iff the independent RFC 8259 parser (Ref/Rfc8259.lean) accepts, depth <= 256 and no conflicting duplicate member names. Non-trivial = text with a container or an error.",
+        "assumptions": ["logos' matching discipline (longest match, keyword priority, one-character error tokens) is modelled from observation"],
+        "level_text": "The whole text layer is modelled (logos token set, string scanner and check_string, nesting counter, the lelwel recovering LL(1) parser with its open/close bookkeeping, parse_cst, the entry points) and compared with the real code on ~600k texts per run including exact error ranges; acceptance is compared with an independent RFC 8259 parser on every text. Theorems proved so far are listed in the evidence; the full equivalence accept ⇔ RFC grammar is not yet a theorem (see DESIGN).",
+        "level_note": "Trusted: Lean kernel; models of lexer.rs / generated.rs / shape/mod.rs / lib.rs (differential testing, exhaustive at small scope); Ref/Rfc8259.lean is the specification of the JSON language.",
+    },
+    "C05": {
+        "module": "ShapeVerif.Props.C05",
+        "theorems": PENDING_TEXT["C05"],
+        "statements": {},
+        "partial": ["stack depth and wall-clock are reduced to recursion depth / call counts of the model; the real code is run on 100000-bracket and multi-hundred-kilobyte inputs under a per-operation time limit"],
+        "rule": "as C04's corpus plus hostile sizes: 1000 and 100000 unbalanced/balanced brackets, 100000 nested `{\"a\":`, 300 KB (thorough 4 MB) strings with multi-byte characters, wide arrays, unterminated escapes; serde_json values nested to serde_json's limit through the value path. Oracle: no panic, no crash, no timeout; every InvalidJson range lies inside the input on character boundaries and the fragment equals the input at that range (checked byte-wise in Python). Non-trivial = error answer or container.",
+        "assumptions": ["frame size x 258 nested parse_rule calls fits the stack (validated by the runs)"],
+        "level_text": "Every panic site of the text layer (unwrap, indexing, slicing, usize subtraction, unreachable!) is an explicit panic outcome of the model, which is compared with the real code on every generated text; the implementation is additionally run on adversarial sizes under a time limit and its error ranges are checked byte-wise. Theorems proved so far are listed in the evidence.",
+        "level_note": "Trusted: Lean kernel; text-layer model tied by differential testing; real stack/time behaviour is observed, not proved.",
+    },
+    "C07": {
+        "module": "ShapeVerif.Props.C07",
+        "theorems": PENDING_TEXT["C07"],
+        "statements": {},
+        "partial": ["the lift from document trees to texts (whitespace, number and string lexical forms) rests on the text-layer model being compared with the code; infer_factors is proved on trees"],
+        "rule": "for random documents d: three re-renderings r(d) each (other scalars of the same kind, other number/string lexical forms incl. escapes, reversed/swapped members, a same-shaped element appended to homogeneous arrays, four whitespace styles incl. CRLF and lone CR); from_str(d) == from_str(r(d)) on the real code and on the model. Non-trivial = container.",
+        "assumptions": [],
+        "level_text": "On document trees the inferred shape is proved independent of scalar payloads, of member order (distinct names) and of the number of same-shaped elements (Lean theorems); the text layer is modelled and compared with the code, and the metamorphic equalities are evaluated on the real from_str.",
+        "level_note": "Trusted: Lean kernel; models (differential testing).",
     },
     "C06": {
         "module": "ShapeVerif.Props.C06",
@@ -229,6 +268,17 @@ def oracle(pid, ops, impl, tier):
                 prev = (f[1:], shape)
             else:
                 prev = None
+    if pid == "C04":
+        for o, r in zip(ops, impl):
+            f = o.split("\t")
+            if f[0] == "inferdoc":
+                out.append((f"rfc\t{f[1]}", "@C04:" + r, "accepts exactly RFC 8259 texts of depth <= 256 without conflicting duplicate names", o))
+            elif f[0] == "supersetchk":
+                out.append((f"rfc\t{f[2]}", "@C04:" + ("ok" if r.startswith("ok ") else r), "is_superset_checked errs exactly on non-JSON", o))
+            elif f[0] == "superset":
+                out.append((f"rfc\t{f[2]}", "@C04sup:" + r, "is_superset answers false for every text that is not JSON", o))
+            elif f[0] == "sourcesdoc":
+                out.append((f"rfc\t{f[-1]}", "@C04:" + r, "from_sources accepts exactly when every source is JSON", o))
     if pid == "C09":
         for o, r in zip(ops, impl):
             f = o.split("\t")
@@ -294,6 +344,29 @@ def ident_keys(sx):
 def direct_oracle(pid, ops, impl):
     """Property checks decided on the implementation's answers alone (no reference evaluation)."""
     fails = []
+    if pid in ("C05", "C04"):
+        # a parse error that carries a range: inside the input, on character boundaries, fragment = text[range]
+        for o, r in zip(ops, impl):
+            f = o.split("\t")
+            if f[0] in ("inferdoc", "supersetchk", "sourcesdoc") and r.startswith("err InvalidJson "):
+                try:
+                    _, _, st, en, val = r.split(" ")
+                except ValueError:
+                    _, _, st, en = r.split(" ")[:4]
+                    val = ""
+                st, en = int(st), int(en)
+                text = bytes.fromhex(f[-1])
+                frag = text[st:en] if st <= en <= len(text) else None
+                okb = frag is not None
+                if okb:
+                    try:
+                        frag.decode()
+                        text[:st].decode()
+                    except UnicodeDecodeError:
+                        okb = False
+                if not okb or frag.hex() != val:
+                    fails.append({"op": o, "impl": r, "expected": "range inside the input on character boundaries and fragment == input[range]",
+                                  "why": "parse error range/fragment not faithful"})
     if pid == "C12":
         import math
         fam = {}
@@ -343,6 +416,20 @@ def direct_oracle(pid, ops, impl):
 
 
 def oracle_ok(got, want):
+    if want.startswith("@C04"):
+        tag, implres = want.split(":", 1)
+        if got == "unmodelled":
+            return True
+        is_json = got.startswith("accept")
+        ok_expected = False
+        if is_json:
+            depth = int(got.split("depth=")[1].split(" ")[0])
+            ok_expected = depth <= 256 and got.endswith("dup=ok")
+        if tag == "@C04sup":
+            # unchecked query: must be false on non-JSON (on JSON either answer is possible)
+            return is_json and depth <= 256 and got.endswith("dup=ok") or implres == "false"
+        accepted = implres.startswith("ok")
+        return accepted == ok_expected
     return got == want or got.startswith(want + " ")
 
 
